@@ -11,8 +11,9 @@ import time
 import traceback
 
 VERIF = os.path.dirname(os.path.dirname(os.path.abspath(__file__)))
-REPLAY_DIR = os.path.join(VERIF, "replays")
-EVIDENCE_DIR = os.path.join(VERIF, "evidence")
+OUT = os.environ.get("BCSIM_OUT") or VERIF  # selftests redirect evidence/replays away from the committed ones
+REPLAY_DIR = os.path.join(OUT, "replays")
+EVIDENCE_DIR = os.path.join(OUT, "evidence")
 KNOWN_FILE = os.path.join(VERIF, "known_findings.json")
 PYTHON = sys.executable
 
@@ -220,6 +221,9 @@ def write_evidence(prop, tier, seed, level, coverage, wall_s, violations, assump
 
 def repo_head():
     try:
-        return subprocess.run(["git", "-C", "/repo", "rev-parse", "--short", "HEAD"], capture_output=True, text=True).stdout.strip()
+        repo = os.environ.get("BCSIM_REPO", "/repo")
+        out = subprocess.run(["git", "-C", repo, "rev-parse", "--short", "HEAD"], capture_output=True, text=True).stdout.strip()
+        dirty = subprocess.run(["git", "-C", repo, "status", "--porcelain", "--", "inscripta"], capture_output=True, text=True).stdout.strip()
+        return (out or "unknown") + ("+dirty" if dirty else "")
     except Exception:
         return "unknown"
